@@ -19,6 +19,7 @@ CONSTANTS MaxN,        \* enumerate registers of 2..MaxN atoms
           MaxNDim3,    \* ... with the leakage level only up to this size
           MaxNPair,    \* RelabelEquivariance as an explicit two-run property up to this size
           Backends,    \* subset of {"mps", "sv"}
+          TagModes,    \* subset of {"base", "suffix", "both"}: tags of the per-atom observables (emu-mps, reordering on)
           Focus,       \* "all" | "spe" (only runs with state-preparation errors) | "nospe"
           FromFile,    \* BOOLEAN: scenarios from IOEnv.SCEN_FILE instead of the enumeration
           Log          \* BOOLEAN: print every finished scenario
@@ -35,19 +36,20 @@ FileScenarios ==
   { [ backend |-> raw[i].backend, n |-> raw[i].n, rho |-> Fn0(raw[i].rho), optp |-> Fn0(raw[i].optp),
       reorder |-> raw[i].reorder, spe |-> raw[i].spe,
       dark |-> {a \in Idx(raw[i].n) : raw[i].dark[a + 1]},
-      given |-> raw[i].given, dim |-> raw[i].dim ] : i \in 1..Len(raw) }
+      given |-> raw[i].given, dim |-> raw[i].dim, tagmode |-> raw[i].tagmode ] : i \in 1..Len(raw) }
 
 EnumInit ==
   \E b \in Backends, n \in 2..MaxN :
   \E r \in PermsOf(n), ro \in BOOLEAN, sp \in BOOLEAN, g \in BOOLEAN, dm \in {2, 3} :
   \E p \in (IF ro /\ b = "mps" THEN PermsOf(n) ELSE {EyePermutation(n)}) :
   \E d \in (IF sp THEN SUBSET Idx(n) ELSE {{}}) :
+  \E tm \in (IF ro /\ b = "mps" THEN TagModes ELSE {"base"}) :
      /\ ~(g /\ sp)                              \* both backends refuse initial state + SPAM (not a run)
      /\ (b = "sv" => ~ro)
      /\ (Focus = "spe" => sp) /\ (Focus = "nospe" => ~sp)
      /\ (dm = 3 => (n <= MaxNDim3 /\ sp /\ b = "mps"))   \* the level count only matters for the padding (emu-mps)
      /\ sc = [backend |-> b, n |-> n, rho |-> r, optp |-> p, reorder |-> ro, spe |-> sp, dark |-> d,
-              given |-> g, dim |-> dm]
+              given |-> g, dim |-> dm, tagmode |-> tm]
 
 Init == /\ (IF FromFile THEN sc \in FileScenarios ELSE EnumInit)
         /\ s = Blank /\ pc = "new"
@@ -93,19 +95,27 @@ DarkDoNotInteract(c, t) ==
      \/ t.imat[k][l] = <<OFF, OFF>>
      \/ /\ t.imat[k][l][1] \in GoodSet(c) /\ t.imat[k][l][2] \in GoodSet(c)
         /\ t.imat[k][l] = <<t.imat[k][k][1], t.imat[l][l][1]>>
+\* the stored per-atom results, per tag group ("base": occupation / bitstrings / correlation_matrix,
+\* "x": the same observables with a tag suffix)
+Groups(c) == (IF HasBase(c) THEN {"base"} ELSE {}) \cup (IF HasSuffixed(c) THEN {"x"} ELSE {})
+Res(t, g) == IF g = "base" THEN [occ |-> t.occ, bits |-> t.bits, corr |-> t.corr]
+                           ELSE [occ |-> t.occX, bits |-> t.bitsX, corr |-> t.corrX]
 \* dark atoms are driven by nothing and are reported in |g>
 DarkStayGround(c, t) ==
   /\ \A k \in DOMAIN t.ham : ~IsAbsent(t.ham[k]) => (t.ham[k][1] \in GoodSet(c) /\ t.ham[k][4] \in GoodSet(c) \cup {GROUND})
-  /\ \A j \in Idx(c.n) : c.rho[j] \in DarkSet(c) => IsAbsent(t.occ[j])
+  /\ \A g \in Groups(c) : \A j \in Idx(c.n) : c.rho[j] \in DarkSet(c) => IsAbsent(Res(t, g).occ[j])
 \* the simulated system is exactly the register without the dark atoms
 OthersAsReducedRegister(c, t) ==
   {t.ham[k] : k \in {l \in DOMAIN t.ham : ~IsAbsent(t.ham[l])}} = {Site(c, a) : a \in GoodSet(c)}
+GroupInRegisterOrder(c, r) ==
+  /\ \A j \in Idx(c.n) : /\ Reports(c, r.occ[j], c.rho[j])
+                         /\ Reports(c, r.bits[j], c.rho[j])
+  /\ \A i, j \in Idx(c.n) : /\ Reports(c, r.corr[i][j][1], c.rho[i])
+                            /\ Reports(c, r.corr[i][j][2], c.rho[j])
+\* EVERY stored per-atom result, whatever its tag, lists the atoms in register order
 ResultsInRegisterOrder(c, t) ==
   /\ t.atomOrder = c.rho
-  /\ \A j \in Idx(c.n) : /\ Reports(c, t.occ[j], c.rho[j])
-                         /\ Reports(c, t.bits[j], c.rho[j])
-  /\ \A i, j \in Idx(c.n) : /\ Reports(c, t.corr[i][j][1], c.rho[i])
-                            /\ Reports(c, t.corr[i][j][2], c.rho[j])
+  /\ \A g \in Groups(c) : GroupInRegisterOrder(c, Res(t, g))
 
 Verdict(c, t) ==
   IF ~RunsForEveryMask(c, t) THEN t.outcome
@@ -114,7 +124,8 @@ Verdict(c, t) ==
   ELSE IF ~DarkStayGround(c, t) THEN "dark-atom-driven-or-not-ground"
   ELSE IF ~OthersAsReducedRegister(c, t) THEN "not-the-reduced-register"
   ELSE IF t.atomOrder # c.rho THEN "atom-order-not-register-order"
-  ELSE IF ~ResultsInRegisterOrder(c, t) THEN "results-not-in-register-order"
+  ELSE IF HasBase(c) /\ ~GroupInRegisterOrder(c, Res(t, "base")) THEN "results-not-in-register-order"
+  ELSE IF HasSuffixed(c) /\ ~GroupInRegisterOrder(c, Res(t, "x")) THEN "suffixed-results-not-in-register-order"
   ELSE "ok"
 
 \* two-run form: the same atoms inserted in another order (rho' = rho o pi), the optimiser free to
@@ -126,9 +137,11 @@ Equivariant(c, t, pi, p2, ro2) ==
   LET t2 == RunAll(Relabelled(c, pi, p2, ro2)) IN
   /\ t2.outcome = t.outcome
   /\ t.outcome = "ok" =>
-       /\ \A j \in Idx(c.n) : /\ t2.occ[j] = t.occ[pi[j]] /\ t2.bits[j] = t.bits[pi[j]]
-                              /\ t2.atomOrder[j] = t.atomOrder[pi[j]]
-       /\ \A i, j \in Idx(c.n) : t2.corr[i][j] = t.corr[pi[i]][pi[j]]
+       /\ \A j \in Idx(c.n) : t2.atomOrder[j] = t.atomOrder[pi[j]]
+       /\ \A g \in Groups(c) :
+            /\ \A j \in Idx(c.n) : /\ Res(t2, g).occ[j] = Res(t, g).occ[pi[j]]
+                                   /\ Res(t2, g).bits[j] = Res(t, g).bits[pi[j]]
+            /\ \A i, j \in Idx(c.n) : Res(t2, g).corr[i][j] = Res(t, g).corr[pi[i]][pi[j]]
 PairCheck(c, t) ==
   \A pi \in PermsOf(c.n) : \A ro2 \in (IF c.backend = "mps" THEN BOOLEAN ELSE {FALSE}) :
   \A p2 \in (IF ro2 THEN PermsOf(c.n) ELSE {EyePermutation(c.n)}) : Equivariant(c, t, pi, p2, ro2)
@@ -149,8 +162,8 @@ InvCoherentAtUpdateH == pc = "fill_results" => LabelCoherent(sc, s)
 \* ---- log: scenario, prediction, verdict
 DarkBits(c) == [a \in 1..c.n |-> (a - 1) \in DarkSet(c)]
 LogFinished == (Log /\ Finished) =>
-  PrintT(<<"S", sc.backend, sc.n, AsSeq(sc.rho), AsSeq(sc.optp), sc.reorder, sc.spe, DarkBits(sc), sc.given, sc.dim,
+  PrintT(<<"S", sc.backend, sc.n, AsSeq(sc.rho), AsSeq(sc.optp), sc.reorder, sc.spe, DarkBits(sc), sc.given, sc.dim, sc.tagmode,
            s.outcome, AsSeq(s.qperm), AsSeq(s.atomOrder), AsSeq(s.ham), AsSeq(s.wp), AsSeq(s.occ), AsSeq(s.bits),
-           Verdict(sc, s),
+           AsSeq(s.occX), AsSeq(s.bitsX), Verdict(sc, s),
            IF s.outcome = "ok" /\ sc.n <= MaxNPair THEN PairCheck(sc, s) ELSE TRUE>>)
 ====
